@@ -914,10 +914,10 @@ impl<'a> Parser<'a> {
                 self.next_or_error()?; // consume '>'
                 false
             }
-            Some(Ok((token, _))) => {
+            Some(Ok((token, span))) => {
                 return Err(Error::syntax_error(
                     format!("Found {token} but expected `/` or `>`"),
-                    &self.current_span,
+                    span,
                 ));
             }
             Some(Err(e)) => {
